@@ -11,6 +11,8 @@ from props.totals_common import run_trace_spec
 
 
 def _worker(seed, nfiles, focus):
+    if focus in ('c01', 'c02') and seed % 4 == 0:
+        return ET.record_csv_batch(seed, nfiles * 2)          # the legacy CSV loop: per-rule truth decided by the harness (re + modifiers)
     return ET.record_batch(seed, nfiles, focus)
 
 
@@ -30,7 +32,7 @@ def run(ck, focus, nfiles, label=None):
     label = label or ('Trace_Engine/' + focus)
     nw = 16
     per = max(1, nfiles // nw)
-    outs = par.pmap(_worker, [ck.seed * 100003 + 17 * s + 1 for s in range(nw)], extra=(per, focus))
+    outs = par.pmap(_worker, [ck.seed * 100003 + 17 * s + 3 for s in range(nw)], extra=(per, focus))
     recs, by_id, names = [], {}, {}
     tot = {}
     for rs, stats, nm in outs:
